@@ -17,6 +17,7 @@ META = {
         "distinct by-reference parameters do not alias",
     ],
 }
+META["explanation"] += " " + "(PROG) every cursor-controlled loop of the parser, UnEscape, the string utilities and the number scanner makes progress: E-ZONE with ghost copies of cursor and bound taken at the start of each iteration proves, on every CFG edge back to the loop head (back edge and every continue), that bound - cursor dropped by at least one; a path on which provably neither changed is a violation; loops outside the difference-bound domain (parseObject/parseArray member loops, whose progress is a callee's, flag-driven loops, divisions) are listed in the evidence as not decided."
 
 KEYS = [
     "Qentem::JSON::JSONParser::Parse", "Qentem::JSON::JSONParser::parseValue",
@@ -39,4 +40,6 @@ def run(ctx):
     from rules.borrow import rule_borrow
     out = list(rules.values())
     out.append(rule_borrow(ctx, m, files=["JSON.hpp", "JSONUtils.hpp"]))
+    from rules.progress import rule_progress
+    out.append(rule_progress(ctx, m, CONTRACTS, ["JSON.hpp", "JSONUtils.hpp", "StringUtils.hpp", "Digit.hpp"], floor=25))
     return out
